@@ -3297,4 +3297,289 @@ theorem mergePeaks_shift (nCh nS : Nat) (T : Int) (peaks : List Peak) (merged : 
     · exact hgo
 
 
+
+/-! ## review round: closed forms -/
+
+theorem ChainOK_mid (P : FPParams) (toPe : List Rat) (nCh : Nat) (h' : Hit) (l2 : List Hit) :
+    ∀ (l1 : List Hit) (c : Cand), ChainOK P toPe nCh c (l1 ++ h' :: l2) →
+      isFar P (l1.foldl (fun c x => Cand.step P toPe nCh (some c) x) c) h' = false ∧
+      tooLong P (l1.foldl (fun c x => Cand.step P toPe nCh (some c) x) c) h' = false := by
+  intro l1
+  induction l1 with
+  | nil => intro c h; exact ⟨h.1, h.2.1⟩
+  | cons x l1 ih => intro c h; exact ih _ h.2.2
+
+/-- **closed form of a cluster** (no model helper in the statement): for every hit `h'` of a cluster after its
+first one, with `pre` the non-empty list of the cluster's hits before it (first hit `f`):
+`h'` starts less than `gap_threshold` after the latest end among `pre`, and
+`h'.end − f.time + 2·left_extension + right_extension ≤ max_duration` (the cut as the code evaluates it). -/
+theorem chain_closed_form (P : FPParams) (toPe : List Rat) (nCh : Nat) (f h' : Hit) (l1 l2 : List Hit)
+    (hc : IsChain P toPe nCh (f :: l1 ++ h' :: l2)) :
+    h'.time - maxEndt (f :: l1) < P.gap ∧ h'.endt - f.time + 2 * P.left + P.right ≤ P.maxDuration := by
+  simp only [List.cons_append, IsChain] at hc
+  obtain ⟨h1, h2⟩ := ChainOK_mid P toPe nCh h' l2 l1 _ hc
+  have hb : buildCand P toPe nCh (f :: l1) = some (l1.foldl (fun c x => Cand.step P toPe nCh (some c) x) (Cand.step P toPe nCh none f)) := rfl
+  obtain ⟨s1, _, s3, _⟩ := buildCand_spec P toPe nCh f l1 _ hb
+  simp only [isFar, decide_eq_false_iff_not, s3] at h1
+  simp only [tooLong, decide_eq_false_iff_not, s1] at h2
+  refine ⟨by omega, ?_⟩
+  simp only [Hit.endt]; omega
+
+/-! ## review round: fragments after the re-summing of `split_peaks` -/
+
+/-- what `sum_waveform` / `store_downsampled_waveform` make of the time span of a fragment of `_split_peaks` when the
+peak buffer holds `nS` samples: unchanged if it fits, else down-sampled by `ceil(length / nS)` and floored -/
+def Frag.resummed (nS : Nat) (r : Frag) : Frag :=
+  if downsampleFactor r.length.toNat nS > 1 then
+    { r with length := ((r.length.toNat / downsampleFactor r.length.toNat nS : Nat) : Int),
+             dt := r.dt * (downsampleFactor r.length.toNat nS : Nat) }
+  else r
+
+/-- `Frag.resummed` is what `storeDownsampled` does to `(time, length, dt)` -/
+theorem resummed_eq_store (r : Frag) (p : Peak) (buf : List Rat)
+    (h1 : p.time = r.time) (h2 : p.length = r.length) (h3 : p.dt = r.dt) :
+    (storeDownsampled p buf).time = (r.resummed p.data.length).time ∧
+    (storeDownsampled p buf).length = (r.resummed p.data.length).length ∧
+    (storeDownsampled p buf).dt = (r.resummed p.data.length).dt := by
+  unfold storeDownsampled Frag.resummed
+  simp only [h2]
+  split <;> simp [h1, h2, h3]
+
+/-- fragments in time order, none starting before the previous one ends (gaps allowed) -/
+def Ordered : List Frag → Int → Prop
+  | [], _ => True
+  | f :: fs, a => a ≤ f.time ∧ Ordered fs f.endt
+
+theorem Ordered_mono {fs : List Frag} {a a' : Int} (h : a' ≤ a) (hn : Ordered fs a) : Ordered fs a' := by
+  cases fs with
+  | nil => trivial
+  | cons f fs => exact ⟨by have := hn.1; omega, hn.2⟩
+
+theorem resummed_shrinks (nS : Nat) (r : Frag) (hdt : 0 < r.dt) :
+    (r.resummed nS).time = r.time ∧ (r.resummed nS).endt ≤ r.endt := by
+  unfold Frag.resummed
+  split
+  · rename_i hf
+    refine ⟨rfl, ?_⟩
+    simp only [Frag.endt]
+    have hL : 0 < r.length.toNat := by
+      false_or_by_contra
+      have h0 : r.length.toNat = 0 := by omega
+      rw [h0] at hf
+      unfold downsampleFactor at hf
+      have : (0 + nS - 1) / nS = 0 := by
+        by_cases hz : nS = 0
+        · simp [hz]
+        · exact Nat.div_eq_of_lt (by omega)
+      omega
+    have h1 := Nat.div_mul_le_self r.length.toNat (downsampleFactor r.length.toNat nS)
+    have h2 : ((r.length.toNat / downsampleFactor r.length.toNat nS : Nat) : Int) * ((downsampleFactor r.length.toNat nS : Nat) : Int) ≤ r.length := by
+      have : ((r.length.toNat : Nat) : Int) = r.length := Int.toNat_of_nonneg (by omega)
+      rw [← this]; exact_mod_cast h1
+    have := Int.mul_le_mul_of_nonneg_left h2 (Int.le_of_lt hdt)
+    have e : r.dt * ↑(downsampleFactor r.length.toNat nS) * ↑(r.length.toNat / downsampleFactor r.length.toNat nS)
+        = r.dt * (↑(r.length.toNat / downsampleFactor r.length.toNat nS) * ↑(downsampleFactor r.length.toNat nS)) := by grind
+    omega
+  · exact ⟨rfl, Int.le_refl _⟩
+
+theorem NoOverlap_resummed (nS : Nat) : ∀ (fs : List Frag) (a : Int), (∀ f ∈ fs, 0 < f.dt) → NoOverlap fs a →
+    Ordered (fs.map (Frag.resummed nS)) a := by
+  intro fs
+  induction fs with
+  | nil => intro a _ _; trivial
+  | cons f fs ih =>
+    intro a hdt hn
+    obtain ⟨h1, h2⟩ := resummed_shrinks nS f (hdt f (by simp))
+    simp only [List.map_cons, Ordered]
+    refine ⟨by rw [h1]; exact hn.1, ?_⟩
+    exact Ordered_mono h2 (ih f.endt (fun g hg => hdt g (by simp [hg])) hn.2.2)
+
+/-- no fragment is shortened: it fits the buffer, or its down-sampling factor divides its length -/
+def NoShortening (nS : Nat) (fs : List Frag) : Prop :=
+  ∀ f ∈ fs, downsampleFactor f.length.toNat nS ∣ f.length.toNat
+
+theorem Tiles_resummed (nS : Nat) : ∀ (fs : List Frag) (a b : Int), NoShortening nS fs → Tiles fs a b →
+    Tiles (fs.map (Frag.resummed nS)) a b := by
+  intro fs
+  induction fs with
+  | nil => intro a b _ h; exact h
+  | cons f fs ih =>
+    intro a b hns ht
+    obtain ⟨t1, t2, t3⟩ := ht
+    have hd := hns f (by simp)
+    have key : (f.resummed nS).time = f.time ∧ 0 < (f.resummed nS).length ∧ (f.resummed nS).endt = f.endt := by
+      unfold Frag.resummed
+      split
+      · rename_i hf
+        obtain ⟨k, hk⟩ := hd
+        have hLpos : 0 < f.length.toNat := by omega
+        have hfpos : 0 < downsampleFactor f.length.toNat nS := by omega
+        have hdiv : f.length.toNat / downsampleFactor f.length.toNat nS = k := by
+          conv => lhs; lhs; rw [hk]
+          exact Nat.mul_div_cancel_left k hfpos
+        have hkpos : 0 < k := by
+          false_or_by_contra
+          have : k = 0 := by omega
+          rw [this] at hk; omega
+        refine ⟨rfl, by simp only [hdiv]; exact_mod_cast hkpos, ?_⟩
+        simp only [Frag.endt, hdiv]
+        have : ((f.length.toNat : Nat) : Int) = f.length := Int.toNat_of_nonneg (by omega)
+        rw [← this, hk]; push_cast; grind
+      · exact ⟨rfl, t2, rfl⟩
+    simp only [List.map_cons, Tiles]
+    refine ⟨by rw [key.1]; exact t1, key.2.1, ?_⟩
+    rw [key.2.2]
+    exact ih f.endt b (fun g hg => hns g (by simp [hg])) t3
+
+
+
+/-! ## LocalMinimumSplitter: closing index -/
+
+theorem lastSplit_append_close : ∀ (l : List Int) (p s : Int), s ≠ NO_MORE_SPLITS →
+    lastSplit p (l ++ [s, NO_MORE_SPLITS]) = s := by
+  intro l
+  induction l with
+  | nil => intro p s hs; simp [lastSplit, hs]
+  | cons x l ih =>
+    intro p s hs
+    simp only [List.cons_append, lastSplit]
+    split
+    · exact ih p s hs
+    · exact ih x s hs
+
+theorem lmStep_found (mh mr : Rat) (st : LMState) (i : Nat) (x : Rat) :
+    (st.foundOne = true → (lmStep mh mr st i x).1.foundOne = true) ∧
+    (∀ k, (lmStep mh mr st i x).2 = some k → (lmStep mh mr st i x).1.foundOne = true) := by
+  have hmin : (lmMin st i x).foundOne = st.foundOne := by unfold lmMin; split <;> rfl
+  have hmax : ∀ s : LMState, (lmMax s i x).foundOne = s.foundOne := by intro s; unfold lmMax; split <;> rfl
+  unfold lmStep
+  simp only [hmax]
+  unfold lmYield
+  constructor
+  · intro h; split
+    · rfl
+    · simp only [hmin]; exact h
+  · intro k hk
+    split
+    · rfl
+    · rename_i hc; simp [hc] at hk
+
+theorem lmLoop_mono (mh mr : Rat) : ∀ (ys : List Rat) (j : Nat) (s : LMState), s.foundOne = true →
+    (lmLoop mh mr ys j s).2 = true := by
+  intro ys
+  induction ys with
+  | nil => intro j s hs; simpa [lmLoop] using hs
+  | cons y ys ih => intro j s hs; simp only [lmLoop]; exact ih _ _ ((lmStep_found mh mr s j y).1 hs)
+
+theorem lmLoop_found (mh mr : Rat) : ∀ (xs : List Rat) (i : Nat) (st : LMState),
+    (lmLoop mh mr xs i st).2 = false → (lmLoop mh mr xs i st).1 = [] := by
+  intro xs
+  induction xs with
+  | nil => intro i st _; rfl
+  | cons x xs ih =>
+    intro i st h
+    simp only [lmLoop] at h ⊢
+    have hrest := ih (i+1) (lmStep mh mr st i x).1 h
+    cases hy : (lmStep mh mr st i x).2 with
+    | none => simpa [hy] using hrest
+    | some k =>
+      have := lmLoop_mono mh mr xs (i+1) _ ((lmStep_found mh mr st i x).2 k hy)
+      rw [this] at h; cases h
+
+/-- what the local-minimum splitter yields ends with `len(w)` whenever it yields a split at all -/
+theorem localMinimumYields_close (w : List Rat) (mh mr : Rat) :
+    localMinimumYields w mh mr = [NO_MORE_SPLITS] ∨ lastSplit 0 (localMinimumYields w mh mr) = (w.length : Int) := by
+  unfold localMinimumYields
+  simp only []
+  generalize hr : lmLoop mh mr w 0 { foundOne := false, lastMax := -lmBig, minSinceMax := lmBig, minSinceMaxI := 0 } = r
+  obtain ⟨sp, found⟩ := r
+  cases found with
+  | false =>
+    left
+    have := lmLoop_found mh mr w 0 _ (by rw [hr])
+    rw [hr] at this
+    simp only [] at this
+    subst this; rfl
+  | true =>
+    right
+    simp only [if_true, List.append_assoc, List.cons_append, List.nil_append]
+    exact lastSplit_append_close sp 0 _ (by unfold NO_MORE_SPLITS; omega)
+
+
+
+/-! ## totality of find_peaks -/
+
+theorem finishAll_total (P : FPParams) (nS : Nat) : ∀ (cs : List Cand),
+    (∀ c ∈ cs, ∃ r, c.finish P nS = .ok r) → ∃ peaks, finishAll P nS cs = .ok peaks := by
+  intro cs
+  induction cs with
+  | nil => intro _; exact ⟨[], rfl⟩
+  | cons c cs ih =>
+    intro h
+    obtain ⟨r, hr⟩ := h c (by simp)
+    obtain ⟨ps, hps⟩ := ih (fun x hx => h x (by simp [hx]))
+    simp only [finishAll, hr, hps]
+    cases r with
+    | none => exact ⟨ps, rfl⟩
+    | some p => exact ⟨p :: ps, rfl⟩
+
+theorem finish_ok_of (P : FPParams) (toPe : List Rat) (nCh nS : Nat) (c : Cand) (d : Int)
+    (hi : Inv P toPe nCh c) (hd : 0 < d) (hg : ∀ x ∈ c.members, x.dt = d ∧ 1 ≤ x.length)
+    (hl : 0 ≤ P.left) (hr : 0 ≤ P.right) : ∃ r, c.finish P nS = .ok r := by
+  unfold Inv at hi
+  cases hm : c.members with
+  | nil => rw [hm] at hi; simp [buildCand] at hi
+  | cons f t =>
+    rw [hm] at hi hg
+    obtain ⟨s1, _, s3, _⟩ := buildCand_spec P toPe nCh f t c hi
+    have hlast : c.lastDt = d := by
+      simp only [buildCand, Option.some.injEq] at hi
+      rw [← hi]
+      exact fold_lastDt P toPe nCh d t _ (by simp [Cand.step, Cand.enter, Cand.add, (hg f (by simp)).1])
+        (fun x hx => (hg x (by simp [hx])).1)
+    have hfe : f.endt ≤ c.endt := by rw [s3]; exact le_maxEndt (f :: t) f (by simp)
+    have hf := hg f (by simp)
+    have hmul : d ≤ f.dt * f.length := by
+      rw [hf.1]
+      have := Int.mul_le_mul_of_nonneg_left hf.2 (Int.le_of_lt hd)
+      simpa using this
+    have hx : d ≤ c.endt - c.time + P.right := by
+      simp only [Hit.endt] at hfe; omega
+    have hq : 1 ≤ (c.endt - c.time + P.right).tdiv d := by
+      rw [Int.tdiv_eq_ediv_of_nonneg (by omega)]
+      have := Int.ediv_le_ediv hd hx
+      rwa [Int.ediv_self (by omega)] at this
+    unfold Cand.finish
+    split
+    · exact ⟨_, rfl⟩
+    · split
+      · exact ⟨_, rfl⟩
+      · rw [hlast]
+        have : ¬ d = 0 := by omega
+        simp only [this, if_false]
+        have : ¬ (c.endt - c.time + P.right).tdiv d ≤ 0 := by omega
+        simp only [this, if_false]
+        exact ⟨_, rfl⟩
+
+/-- **totality**: `find_peaks` returns (no error) whenever its assertions hold, all hits have one positive `dt`
+and at least one sample, and the extensions are non-negative -/
+theorem findPeaks_total (P : FPParams) (toPe : List Rat) (nCh nS : Nat) (hits : List Hit) (d : Int)
+    (ha : fpAsserts P toPe hits = true) (hd : 0 < d) (hg : ∀ x ∈ hits, x.dt = d ∧ 1 ≤ x.length)
+    (hl : 0 ≤ P.left) (hr : 0 ≤ P.right) : ∃ peaks, findPeaks P toPe nCh nS hits = .ok peaks := by
+  unfold findPeaks
+  by_cases he : hits.isEmpty
+  · simp only [he, if_true]; exact ⟨[], rfl⟩
+  · simp only [he, if_false, ha, Bool.not_true, Bool.false_eq_true]
+    have hne : hits ≠ [] := by simpa using he
+    apply finishAll_total
+    intro c hc
+    have hfl := scanHits_flatten P toPe nCh hits none hne
+    simp only [membersOf, List.nil_append] at hfl
+    refine finish_ok_of P toPe nCh nS c d (scanHits_inv P toPe nCh hits none trivial c hc) hd ?_ hl hr
+    intro x hx
+    apply hg
+    rw [← hfl]
+    exact List.mem_flatten.mpr ⟨c.members, List.mem_map.mpr ⟨c, hc, rfl⟩, hx⟩
+
+
 end Strax.Peaks
